@@ -1766,7 +1766,9 @@ func loopHasCallMatching(li *loopInfo, pattern string) bool {
 func (x *FnExec) mapUpdateGuards(fr *frame, n *node, in *ssa.MapUpdate, mt *types.Map, m, k, v Val) {
 	keyName := types.TypeString(mt.Key(), func(*types.Package) string { return "" })
 	for _, g := range x.eng.specs.Guards {
-		if g.Kind != "mapupdate" || (g.Target != "*" && g.Target != keyName) {
+		// target: key type name, "*" or "Key->Elem" (element type without package qualifier, e.g. string->*PodRequest)
+		elemName := types.TypeString(mt.Elem(), func(*types.Package) string { return "" })
+		if g.Kind != "mapupdate" || (g.Target != "*" && g.Target != keyName && g.Target != keyName+"->"+elemName) {
 			continue
 		}
 		if g.In != "" && !strings.HasSuffix(funcKey(x.top), "."+g.In) && !strings.HasSuffix(funcKey(fr.fn), "."+g.In) {
